@@ -11,7 +11,14 @@ use serde_json::{json, Value};
 /// disconnect (timeouts raised to 60 s), speed skew and pauses.
 pub fn gen_c01_space(r: &mut Rng, frames: i32) -> Scn {
     let mut s = Scn::base(r.next());
-    s.peers = topo(r.below(6) as usize);
+    // the six standard topologies, or any assignment of 1-2 local players to 2-4 peers
+    s.peers = if r.chance(0.6) {
+        topo(r.below(6) as usize)
+    } else {
+        let n = r.range(2, 4) as usize;
+        let counts: Vec<usize> = (0..n).map(|_| r.range(1, 2) as usize).collect();
+        topo_from_counts(&counts)
+    };
     s.pred = r.below(2) as u8;
     s.mp = r.range(1, 12) as usize;
     s.delay = r.below(5) as usize;
